@@ -5,15 +5,15 @@ LEVEL_TEXT = ("G-obligations: every decrypt/open/verify entry point is executed 
               "ciphertext/tag with idealised cores; CBMC decides, for all keys and contents at each enumerated length, "
               "that the call succeeds iff all presented tag bytes equal the recomputed MAC of the specified input, and "
               "that on failure mlen = 0 and the output buffer is untouched or zero-filled.")
-LEVEL_TEXT += " AES-256-GCM (E2 irsym): the AES-NI/PCLMULQDQ unit's LLVM IR is executed on a concrete key and nonce (two fixed pairs) with message, associated data and forged-tag delta symbolic, and compared bit for bit with an SP 800-38D / FIPS-197 specification over the same symbols; both sides are GF(2)-affine in the symbols and are kept in canonical affine form, tag acceptance under 'delta != 0' is decided by kissat."
+LEVEL_TEXT += " AES-256-GCM (E2 irsym): the AES-NI/PCLMULQDQ unit's LLVM IR is executed on a concrete key and nonce (two fixed pairs) with message, associated data and forged-tag delta symbolic, and compared bit for bit with an SP 800-38D / FIPS-197 specification over the same symbols; both sides are GF(2)-affine in the symbols and are kept in canonical XOR normal form, tag acceptance under 'delta != 0' is decided by kissat. AEGIS-128L/256 AES-NI and portable units likewise with key and nonce symbolic as well."
 TRUSTED = ["CBMC 6.11 C semantics and uninterpreted-function encoding", "spec models in harness/*_spec.h",
            "MAC unforgeability is NOT assumed and not claimed (cryptographic property of the primitive)"]
 ASSUMPTIONS = ["clen, adlen in the enumerated sets"]
-OUTSIDE = ["that a changed ciphertext/ad/key yields a different MAC value (unforgeability)", "AES-256-GCM with keys/nonces other than the two fixed pairs; multi-bit changes of ciphertext/ad for AES-GCM (tag changes are fully symbolic)", "AEGIS AES-NI units",
+OUTSIDE = ["that a changed ciphertext/ad/key yields a different MAC value (unforgeability)", "AES-256-GCM with keys/nonces other than the two fixed pairs; multi-bit changes of ciphertext/ad for AES-GCM (tag changes are fully symbolic)", "for AEGIS: that a changed ciphertext/ad changes the recomputed tag (cryptographic; rejection is decided for an arbitrary presented ciphertext with tag = specified tag xor delta, delta != 0)",
            "lengths above the bounds"]
 
 
-E2_EQUIV = ['aes256gcm-aesni-forgery']
+E2_EQUIV = ['aes256gcm-aesni-forgery', 'aegis128l-aesni-forgery', 'aegis128l-soft-forgery', 'aegis256-aesni-forgery', 'aegis256-soft-forgery']
 
 
 def obligations(tier):
